@@ -107,7 +107,7 @@ def part_namedict(ctx, quick):
                              sp=tset(["l"]) if quick else tset(["l", "u"]), inits="GenInitMaps" if not quick else "GenInitEmpty")
         if quick:   # ... and from a constructed initial content
             hists += nd_generate(ctx, "a2b.cfg", probes, keys="Tree7", ops=tset(ALLOPS), maxops=2, vals=tset([1]), sp=tset(["u"]),
-                                 inits="GenInitTwo", minops=2)
+                                 inits="GenInitOne", minops=2)
         # A3: every history of set/del calls over the 7-name tree, one value
         hists += nd_generate(ctx, "a3.cfg", probes, keys="Tree7", vals=tset([1]), maxops=3 if quick else 4)
         # A4: long seeded random histories, every call kind, both spellings, constructed initial content
